@@ -2,12 +2,15 @@
 C02 — property theorems: the needle on-disk encoding round-trips and is self-checking.
 All statements are about the executable byte-level model in SwV/Model/C02.lean (tied to the Go code by the
 correspondence run and by the `bridge_*` theorems over definitions regenerated from the source).
-`crc` is a parameter everywhere: nothing here depends on which checksum function is used.
+`crc` is a parameter of the encoding/scanning theorems (nothing there depends on which checksum function is
+used); the section "the concrete checksum" is about the model's executable CRC-32C (`crc32c`, compared with
+`needle.NewCRC` by the driver) and `CRC.Value()` (`crcValue`, bridged to the translated source).
 -/
 import SwV.Model.C02
 import SwV.Spec.C02
 import SwV.Gen.C02
 import SwV.Lemmas.C02
+import SwV.Lemmas.C02Crc
 
 namespace SwV.Props.C02
 open SwV.Model.C02 SwV.Spec.C02 SwV.Lemmas.C02
@@ -102,6 +105,114 @@ theorem decode_checks_crc (crc : Bytes → UInt32) (v : Nat) (blob : Bytes) (siz
     (h : readBytes crc v blob size = .ok d) (hpos : 0 < d.size) :
     beNat (((blob.drop 16).drop d.size).take 4) = crcValue (crc d.body.data).toNat :=
   readBytes_crc crc v blob size d h hpos
+
+/-! ### the concrete checksum: CRC-32C separates single-bit (indeed single-byte) alterations -/
+
+/-- for EVERY byte string and every bit position: flipping that bit changes the CRC-32C (`NewCRC`), i.e. the
+    executable bitwise Castagnoli CRC of the model, the one the driver runs against the real code -/
+theorem crc32c_detects_single_bit (d : Bytes) (i : Nat) (hi : i < 8 * d.length) :
+    crc32c (flipBit d i) ≠ crc32c d :=
+  crc32c_single_bit d i hi
+
+/-- stronger: ANY change confined to one byte (all 255 alternatives: every burst of up to 8 bits inside a byte) -/
+theorem crc32c_detects_one_byte_change (pre post : Bytes) (x y : UInt8) (hxy : x ≠ y) :
+    crc32c (pre ++ x :: post) ≠ crc32c (pre ++ y :: post) :=
+  crc32c_one_byte pre post x y hxy
+
+/-- the reason: the per-bit register update is injective and fixes 0 (polynomial with constant term 1), so a
+    nonzero difference never dies out while the remaining bytes are fed -/
+theorem crc_step_injective : (∀ a b : UInt32, crcBit a = crcBit b → a = b) ∧ crcBit 0 = 0 :=
+  ⟨crcBit_inj, crcBit_zero⟩
+
+/-- `CRC.Value()` (rotate right by 15, add 0xa282ead8) is a bijection on 32-bit values -/
+theorem crc_value_bijective :
+    (∀ a b : Nat, a < 2 ^ 32 → b < 2 ^ 32 → crcValue a = crcValue b → a = b) ∧
+    (∀ c : Nat, c < 2 ^ 32 → crcUnvalue (crcValue c) = c) :=
+  ⟨crcValue_inj, crcUnvalue_crcValue⟩
+
+/-- burst errors: two messages whose bit strings (`bitsOf`: bytes in order, least significant bit first — the
+    order in which the reflected CRC consumes them) differ only inside a window of at most 32 consecutive bits,
+    anywhere and across byte boundaries, have different CRC-32C.  (Uses that the register update is GF(2)-linear
+    and injective: feeding n ≤ 32 bits = xoring them in as one word and stepping n times.) -/
+theorem crc32c_detects_burst32 (d e : Bytes) (pre u u' post : List Bool)
+    (hd : bitsOf d = pre ++ (u ++ post)) (he : bitsOf e = pre ++ (u' ++ post))
+    (hl : u.length = u'.length) (hn : u.length ≤ 32) (hne : u ≠ u') : crc32c d ≠ crc32c e :=
+  crc32c_burst32 d e pre u u' post hd he hl hn hne
+
+/-- … through the decoder: data replaced by data differing in a burst of at most 32 bits ⇒ CRC error -/
+theorem decode_detects_burst32 (v : Nat) (n : Needle) (h : WF crc32c n) (d' : Bytes) (pre u u' post : List Bool)
+    (hd : bitsOf n.data = pre ++ (u ++ post)) (he : bitsOf d' = pre ++ (u' ++ post))
+    (hl : u.length = u'.length) (hn : u.length ≤ 32) (hne : u ≠ u') :
+    readBytes crc32c v (encode v (withData n d')) (recSize n) = .error .crc := by
+  have l1 := bitsOf_length n.data
+  have l2 := bitsOf_length d'
+  rw [hd] at l1; rw [he] at l2
+  simp only [List.length_append] at l1 l2
+  have hu : 0 < u.length := by
+    cases u with
+    | nil => cases u' with
+      | nil => exact absurd rfl hne
+      | cons _ _ => simp at hl
+    | cons _ _ => simp
+  exact readBytes_withData crc32c v n h d' (by omega) (by omega)
+    (crc32c_burst32 d' n.data pre u' u post he hd hl.symm (by omega) (Ne.symm hne))
+
+/-- non-vacuity: a 32-bit burst starting at bit 7 of byte 0 and ending at bit 6 of byte 4 -/
+example : bitsOf [0x00, 0x00, 0x00, 0x00, 0x00] = List.replicate 7 false ++ (List.replicate 32 false ++ [false]) ∧
+    bitsOf [0x80, 0x00, 0x00, 0x00, 0x40] =
+      List.replicate 7 false ++ ((true :: List.replicate 30 false ++ [true]) ++ [false]) ∧
+    (List.replicate 32 false).length = (true :: List.replicate 30 false ++ [true]).length ∧
+    List.replicate 32 false ≠ (true :: List.replicate 30 false ++ [true]) := by decide
+
+/-- through the decoder: a stored record whose data differs from the written data in exactly one bit (every other
+    byte of the record untouched, see `corrupt_record_shape`) is answered with the CRC error — never with data —
+    for every well-formed needle, both versions, every bit position -/
+theorem decode_detects_single_bit (v : Nat) (n : Needle) (h : WF crc32c n) (i : Nat) (hi : i < 8 * n.data.length) :
+    readBytes crc32c v (encode v (corruptData n i)) (recSize n) = .error .crc :=
+  readBytes_withData crc32c v n h _ (flipBit_length _ _) (by omega) (crc32c_single_bit n.data i hi)
+
+/-- … any alteration inside one data byte -/
+theorem decode_detects_one_byte_change (v : Nat) (n : Needle) (h : WF crc32c n) (pre post : Bytes) (x y : UInt8)
+    (hd : n.data = pre ++ x :: post) (hxy : x ≠ y) :
+    readBytes crc32c v (encode v (withData n (pre ++ y :: post))) (recSize n) = .error .crc :=
+  readBytes_withData crc32c v n h _ (by simp [hd]) (by rw [hd, List.length_append, List.length_cons]; omega)
+    (by rw [hd]; exact crc32c_one_byte pre post y x (Ne.symm hxy))
+
+/-- … and through the file API (`ReadData` at the record's offset inside any file) -/
+theorem read_at_offset_detects_single_bit (v : Nat) (n : Needle) (h : WF crc32c n) (i : Nat)
+    (hi : i < 8 * n.data.length) (pre post : Bytes) :
+    readData crc32c v (pre ++ (encode v (corruptData n i) ++ post)) pre.length (recSize n) = .error .crc := by
+  have hw := withData_wf crc32c n (flipBit n.data i) (flipBit_length _ _) h
+  have := readData_at_any _ crc32c v (corruptData n i) hw pre post
+  rw [show recSize (corruptData n i) = recSize n from withData_recSize n _ (flipBit_length _ _)] at this
+  rw [this]; exact decode_detects_single_bit v n h i hi
+
+/-- what "the data bytes are altered" means on disk: the corrupted record is the written record with only the
+    data bytes replaced (header, data size, flags, metadata, stored checksum, timestamp, padding identical) -/
+theorem corrupt_record_shape (v : Nat) (n : Needle) (i : Nat) (hi : i < 8 * n.data.length) :
+    encode v n = headerBytes n ++ ((be 4 n.data.length ++ (n.data ++ (n.flags :: metaBytes n))) ++ tailBytes v n) ∧
+    encode v (corruptData n i) =
+      headerBytes n ++ ((be 4 n.data.length ++ (flipBit n.data i ++ (n.flags :: metaBytes n))) ++ tailBytes v n) ∧
+    flipBit n.data i ≠ n.data :=
+  ⟨(withData_shape v n (flipBit n.data i) (flipBit_length _ _) (by omega)).1,
+    (withData_shape v n (flipBit n.data i) (flipBit_length _ _) (by omega)).2, flipBit_ne n.data i hi⟩
+
+/-- the decision for an arbitrary checksum function (what `decode_checks_crc` gives, in the positive form):
+    replaced data with a different checksum ⇒ CRC error -/
+theorem decode_altered_of_crc_ne (crc : Bytes → UInt32) (v : Nat) (n : Needle) (h : WF crc n) (d' : Bytes)
+    (hl : d'.length = n.data.length) (hpos : 0 < n.data.length) (hc : crc d' ≠ crc n.data) :
+    readBytes crc v (encode v (withData n d')) (recSize n) = .error .crc :=
+  readBytes_withData crc v n h d' hl hpos hc
+
+/-- non-vacuity: a well-formed needle w.r.t. the concrete CRC, one of its flips, and the verdict computed -/
+example : WF crc32c { cookie := 1, id := 2, flags := 0, data := [1, 2, 3], checksum := (crc32c [1, 2, 3]).toNat } ∧
+    flipBit [1, 2, 3] 9 = [1, 0, 3] ∧
+    (match readBytes crc32c 3 (encode 3 (corruptData
+      { cookie := 1, id := 2, flags := 0, data := [1, 2, 3], checksum := (crc32c [1, 2, 3]).toNat } 9)) 8 with
+     | .error .crc => true | _ => false) = true := by
+  decide +kernel
+/-- the standard check value of CRC-32C: crc32c("123456789") = 0xE3069283 -/
+example : crc32c [0x31, 0x32, 0x33, 0x34, 0x35, 0x36, 0x37, 0x38, 0x39] = 0xE3069283 := by decide +kernel
 
 /-! ### bridges to the regenerated source facts (T1) -/
 
